@@ -29,30 +29,40 @@ import (
 
 const proofsPerCase = 30
 
+// case index layout: [0,proofCases) single proof contexts, then proof context maps
+func proofCases(t string) int {
+	if t == ev.Thorough {
+		return 6400
+	}
+	return 192
+}
+
+func pcmCases(t string) int {
+	if t == ev.Thorough {
+		return 3200
+	}
+	return 96
+}
+
 func init() {
 	ev.Register(&ev.Prop{
 		ID:    "C29",
 		Level: "exploration",
-		Cases: func(t string) int {
-			if t == ev.Thorough {
-				return 6400
-			}
-			return 192
-		},
+		Cases: func(t string) int { return proofCases(t) + pcmCases(t) },
 		Batches: func(t string) int {
 			if t == ev.Thorough {
 				return 32
 			}
 			return 16
 		},
-		Rule: fmt.Sprintf("each case = one proof context (module eth or icon, n in 1..10 validator slots, about 1 in 6 without a key; keys given compressed or uncompressed; the context is also taken through Bytes/NewProofContextFromBytes) and %d proofs over a decision hash (random or a real NewDecision hash): a subset S of keyed slots signs (|S| biased to floor(2n/3), floor(2n/3)+1, all), then 0..2 faults from: valid signature moved to another slot, copied to a second slot, foreign key, signature over another hash, bit flip, flipped V, V>=8, r=0, 64-byte signature, signature in a key-less slot, signed or empty extra slots beyond n, fewer slots than n. All-good proofs also go through the real NewProofPart/Add/Bytes path. Model: accept iff every filled slot i < n recovers (decred) to the address the harness derives for slot i's key, and 3*filled > 2*n. Non-trivial = distinct proof with a fault or on the threshold boundary.", proofsPerCase),
+		Rule: fmt.Sprintf("each case = one proof context (module eth or icon, n in 1..10 validator slots, about 1 in 6 without a key; keys given compressed or uncompressed; the context is also taken through Bytes/NewProofContextFromBytes) and %d proofs over a decision hash (random or a real NewDecision hash): a subset S of keyed slots signs (|S| biased to floor(2n/3), floor(2n/3)+1, all), then 0..2 faults from: valid signature moved to another slot, copied to a second slot, foreign key, signature over another hash, bit flip, flipped V, V>=8, r=0, 64-byte signature, signature in a key-less slot, signed or empty extra slots beyond n, fewer slots than n. All-good proofs also go through the real NewProofPart/Add/Bytes path. Model: accept iff every filled slot i < n recovers (decred) to the address the harness derives for slot i's key, and 3*filled > 2*n. Second phase (last cases): a real btp.NewProofContextMap over 2..4 network types with increasing ids of which some have NO proof context (biased to the low ids), %d digests each (real btp.NewDigestFromBytes over harness-encoded bytes) naming a subset of the types, one proof per context-bearing type; at most one of them is faulty (0 / 1 / floor signatures, foreign signers, signed over another ntid / height / round / section hash / source uid, rotated indices, garbage bytes, the proof of the neighbouring type) or the proof count is wrong; ProofContextMap.Verify must accept iff every context-bearing type has a proof with > 2/3 valid own-index signatures over ITS decision. Non-trivial = distinct proof with a fault or on the threshold boundary, distinct digest with a fault or a context-less type.", proofsPerCase, digestsPerMap),
 		MinNonTrivial: func(t string) int {
 			if t == ev.Thorough {
 				return 80000
 			}
 			return 2500
 		},
-		Required: []string{"accept_agreed", "reject_agreed", "reject_too_few", "reject_bad_slot", "boundary_at_floor", "boundary_at_floor_plus_1", "real_path_proofs", "decoded_context", "module_eth", "module_icon", "fault_wrong-index-move", "fault_wrong-index-copy", "fault_foreign", "fault_other-hash", "fault_keyless-slot", "verifypart_checked"},
+		Required: []string{"accept_agreed", "reject_agreed", "reject_too_few", "reject_bad_slot", "boundary_at_floor", "boundary_at_floor_plus_1", "real_path_proofs", "decoded_context", "module_eth", "module_icon", "fault_wrong-index-move", "fault_wrong-index-copy", "fault_foreign", "fault_other-hash", "fault_keyless-slot", "verifypart_checked", "pcm_accept_agreed", "pcm_reject_agreed", "pcm_multi_type_digests", "pcm_context_after_hole", "pcm_fault_after_hole"},
 		Assumptions: []string{
 			"decred secp256k1 recovery called directly is the reference for a slot's signer",
 			"eth address = last 20 bytes of keccak-256(uncompressed key without prefix); icon address = 00 | last 20 bytes of sha3-256(same) (derived in the harness with golang.org/x/crypto/sha3)",
@@ -103,6 +113,10 @@ func run(c *ev.Ctx) {
 	log.GlobalLogger().SetLevel(log.FatalLevel)
 	ntm.InitIconModule()
 	c.Cases(func(ci int, r *rand.Rand) {
+		if ci >= proofCases(c.Tier) {
+			runPCM(c, r)
+			return
+		}
 		uid := []string{"eth", "icon"}[r.Intn(2)]
 		mod := ntm.ForUID(uid)
 		if mod == nil {
